@@ -9,6 +9,7 @@ import (
 	"strings"
 	"testing"
 	"time"
+	"unicode"
 	"unicode/utf8"
 
 	"github.com/sboehler/knut/lib/common/table"
@@ -205,15 +206,44 @@ func c17Grid(text string) (lines []c17Line, v *Violation) {
 	}
 	var width0 int
 	var pos0 []int
+	// Which characters draw the frame is not part of the statement: every line starts with its column mark; of the
+	// (at most two) different first characters the one whose lines never carry a letter or digit marks separator
+	// lines. '+' and '|' are assumed only when the table itself cannot tell (no line with content).
+	sepMark, colMark := '+', '|'
+	{
+		hasContent := map[rune]bool{}
+		var order []rune
+		for _, l := range raw {
+			r, _ := utf8.DecodeRuneInString(l)
+			if l == "" || unicode.IsLetter(r) || unicode.IsDigit(r) || unicode.IsSpace(r) {
+				continue
+			}
+			if _, ok := hasContent[r]; !ok {
+				hasContent[r] = false
+				order = append(order, r)
+			}
+			if strings.IndexFunc(l, func(x rune) bool { return unicode.IsLetter(x) || unicode.IsDigit(x) }) >= 0 {
+				hasContent[r] = true
+			}
+		}
+		switch {
+		case len(order) == 2 && hasContent[order[0]] && !hasContent[order[1]]:
+			colMark, sepMark = order[0], order[1]
+		case len(order) == 2 && hasContent[order[1]] && !hasContent[order[0]]:
+			colMark, sepMark = order[1], order[0]
+		case len(order) == 1 && hasContent[order[0]]:
+			colMark, sepMark = order[0], 0
+		}
+	}
 	for li, l := range raw {
 		if !utf8.ValidString(l) {
 			return nil, V("invalid-utf8", "line %d is not valid UTF-8: %q", li+1, l)
 		}
 		rs := []rune(l)
-		sepLine := len(rs) > 0 && rs[0] == '+'
-		mark := '|'
+		sepLine := len(rs) > 0 && rs[0] == sepMark
+		mark := colMark
 		if sepLine {
-			mark = '+'
+			mark = sepMark
 		}
 		var pos []int
 		for i, r := range rs {
